@@ -1555,6 +1555,9 @@ class Interp:
             if isinstance(f, PFunc):
                 return self.call(PBound(f, o), [k], {})
             if o.has_base:
+                miss = o.cls.find("__missing__")
+                if isinstance(miss, PFunc) and isinstance(o.base, dict) and self.concrete(k) and k not in o.base:
+                    return self.call(PBound(miss, o), [k], {})  # dict subclass: d[key] of an absent key calls __missing__
                 return self.getitem(o.base, k)
             raise PyRaise(TypeError(f"'{o.cls.name}' object is not subscriptable"))
         for m in self.attr_models:
